@@ -20,7 +20,7 @@ from concurrent.futures import ThreadPoolExecutor
 VERIF = os.path.dirname(os.path.dirname(os.path.abspath(__file__)))
 REPO = os.environ.get('ORV_REPO', '/repo')
 ORFACTS = os.path.join(VERIF, 'bin', 'orfacts')
-CACHE = os.path.join(VERIF, '.cache')
+CACHE = os.path.join(VERIF, '.cache') if 'ORV_REPO' not in os.environ else os.path.join(REPO, '.orv-cache')
 
 # ---------------------------------------------------------------------------
 # configurations: name -> cmake options.  P is the pinned one, F the fullest
